@@ -115,7 +115,10 @@ def gen_seqeq(rng):
                 ops.insert(rng.choice(mine + [len(ops)]), [r, 'abort'])
             if rng.random() < 0.3:
                 ops.append([r, 'set', 1, pool[0]])
-    return {'kind': 'seqeq', 'model': False, 'ops': ops, 'failing': rng.random() < 0.25}
+    case = {'kind': 'seqeq', 'model': False, 'ops': ops, 'failing': rng.random() < 0.25}
+    if seqeq_modelled(case):
+        del case['model']       # one caller, text keys: tied to PlaybackModel/AsyncCaller.lean (what is seen, what is stored)
+    return case
 
 
 def gen_burst(rng, n):
@@ -142,6 +145,29 @@ def run_seqeq(case):
                         'meta': sorted([k, typed(v)] for k, v in rec.get_metadata().items())})
         return out
 
+    def canon_idx(v):
+        for i, x in enumerate(EQ_POOL):
+            if type(x) is type(v) and repr(x) == repr(v):
+                return i
+        return -1
+
+    def norm(inner, recs):
+        """per recording number: what the cassette stored for it (None: nothing), keys and values as the model's numbers"""
+        out = []
+        for r in sorted(recs):
+            try:
+                rec = inner.get_recording(recs[r].id)
+            except Exception:
+                out.append([r, None])
+                continue
+            try:
+                data = sorted([int(k[1:]), canon_idx(rec.get_data(k))] for k in rec.get_all_keys())
+                meta = sorted([int(k[1:]), canon_idx(v)] for k, v in rec.get_metadata().items())
+            except Exception:
+                data, meta = 'unreadable', 'unreadable'
+            out.append([r, [data, meta]])
+        return out
+
     def play(cassette, close):
         recs = {}
         seen = []
@@ -165,14 +191,34 @@ def run_seqeq(case):
             except Exception as ex:       # (a write to a finalised recording is rejected: the caller sees the same either way)
                 seen.append(type(ex).__name__)
         close()
-        return seen
+        return seen, recs
     sync = InMemoryTapeCassette()
-    sync_seen = play(sync, lambda: None)
+    sync_seen, sync_recs = play(sync, lambda: None)
     inner = InMemoryTapeCassette()
     wrapper = AsyncRecordOnlyTapeCassette(inner, flush_interval=case.get('flush_interval', 0.001), timeout_on_close=60)
     wrapper.start()
-    async_seen = play(wrapper, wrapper.close)
-    return {'async': dump(inner), 'sync': dump(sync), 'async_seen': async_seen, 'sync_seen': sync_seen}
+    async_seen, async_recs = play(wrapper, wrapper.close)
+    out = {'async': dump(inner), 'sync': dump(sync), 'async_seen': async_seen, 'sync_seen': sync_seen}
+    if seqeq_modelled(case):
+        out['norm'] = {'sync_seen': [x == 'ok' for x in sync_seen], 'async_seen': [x == 'ok' for x in async_seen],
+                       'sync_stored': norm(sync, sync_recs), 'async_stored': norm(inner, {r: a.wrapped_recording for r, a in async_recs.items()})}
+    return out
+
+
+def seqeq_modelled(case):
+    """one caller, text keys: the caller-side model (PlaybackModel/AsyncCaller.lean) says what is seen and stored"""
+    return case.get('kind') == 'seqeq' and not case.get('burst') and not any(op[1] == 'item' for op in case['ops'])
+
+
+def seqeq_requests(case):
+    reqs = []
+    for op in case['ops']:
+        if op[1] in ('set', 'meta'):
+            canon = next(i for i, x in enumerate(EQ_POOL) if type(x) is type(EQ_POOL[op[3]]) and repr(x) == repr(EQ_POOL[op[3]]))
+            reqs.append({'r': op[0], 'k': op[1], 'key': op[2], 'val': canon})
+        else:
+            reqs.append({'r': op[0], 'k': op[1]})
+    return [{'m': 'c12.caller', 'reqs': reqs, 'recs': sorted({op[0] for op in case['ops']})}]
 
 
 class Injected(Exception):
@@ -675,7 +721,8 @@ def fixed_workloads():
 class C12(Prop):
     ID = 'C12'
     CORRESPONDENCE = ('PlaybackModel.Async.run (driven by the atomic events of the real run) vs AsyncRecordOnlyTapeCassette '
-                      'around a spy in-memory cassette under the controlled scheduler')
+                      'around a spy in-memory cassette under the controlled scheduler; PlaybackModel.AsyncCaller.direct / forward vs one caller\'s requests '
+                      '(writes, saves, aborts) made on an in-memory cassette and through the wrapper')
     RULE = ('real AsyncRecordOnlyTapeCassette around a spy cassette under the deterministic scheduler. Exhaustive part: every '
             'schedule with <= k pre-emptions of five fixed workloads (1 producer + failing call, k=2 quick / 3 thorough; '
             '2 producers + joiner, k=0 / 1; blocking wrapped call, k=1 / 2; 2 producers with close() in mid-program, k=1 / 2; '
@@ -683,7 +730,7 @@ class C12(Prop):
             'every position of one workload, and random workloads (1-3 producers x 1-3 recordings x 0-4 writes + metadata + '
             'save, failing wrapped calls, close by a joiner or by a producer at any point, optionally one blocking wrapped '
             'call) under random schedules at line and byte-code granularity. Sequential part (one caller, no schedule, not modelled): '
-            'writes of equal-but-different values (1 / True / 1.0, 0 / False, 2 / 2.0, equal strings) under one key / metadata name - a third of them with the recording aborted once or twice on the way and handed to save all the same, writes after the save -, and '
+            'writes of equal-but-different values (1 / True / 1.0, 0 / False, 2 / 2.0, equal strings) under one key / metadata name - a third of them with the recording aborted once or twice on the way and handed to save all the same, writes after the save; those with text keys are compared with the caller-side model (what the caller sees, what is stored) -, and '
             'bursts of 1001 - 12289 writes while the flusher sleeps, compared with recording directly down to the type of every value. '
             'A case is non-trivial when at least one call '
             'reached the wrapped cassette and the scheduler had at least one real choice; distinct = distinct canonical case')
@@ -801,6 +848,8 @@ class C12(Prop):
 
     def model_requests(self, case):
         impl = case.get('_impl') or {}
+        if seqeq_modelled(case):
+            return seqeq_requests(case)
         if case.get('kind') == 'seqeq':
             return []
         if case.get('model') is False:
@@ -813,6 +862,15 @@ class C12(Prop):
                 {'m': 'c12.sync', 'programs': [prog[:counts[p]] for p, prog in enumerate(programs)], 'recs': all_recs(case)}]
 
     def model_transcript(self, case, answers):
+        if seqeq_modelled(case):
+            a = answers[0]
+            if 'error' in a:
+                return {'error': a['error']}
+
+            def stored(v):
+                return [[n, None if x is None else [sorted(x[0]), sorted(x[1])]] for n, x in v]
+            return {'sync_seen': a['directSeen'], 'async_seen': a['asyncSeen'], 'sync_stored': stored(a['directStored']),
+                    'async_stored': stored(a['asyncStored'])}
         if case.get('kind') == 'seqeq':
             return None
         if case.get('model') is False:
@@ -823,6 +881,8 @@ class C12(Prop):
                 'appended': a['appended'], 'before_close': len(a['beforeClose']) if a['stop'] else None}
 
     def impl_view(self, case, impl):
+        if seqeq_modelled(case):
+            return impl.get('norm')
         if case.get('kind') == 'seqeq':
             return None
         appended = [[p, k] for p, k in impl['appends']]
